@@ -459,11 +459,15 @@ def _ref_with_args(src, argnames, meth):
     return normal_form([ast.parse(text).body[0]])
 
 
-IS_ALLOWED_REF = """
+IS_ALLOWED_REFS = ["""
+if isinstance(func, DynamicFieldtypeModule):
+    return func._path in WHITELIST
+return any(func is allowed for allowed in self.allowed_callables)
+""", """
 if isinstance(func, DynamicFieldtypeModule):
     return func.path in WHITELIST
 return any(func is allowed for allowed in self.allowed_callables)
-"""
+"""]
 
 
 def _branches(sel):
@@ -513,7 +517,7 @@ def _branches(sel):
             and isinstance(evb[-1], ast.Return) and isinstance(evb[-1].value, ast.Name)
             and evb[-1].value.id == first.targets[0].id):
         raise Unsupported("RecordContextMatcher.eval is not `r = self._eval(node); ...; return r`")
-    if normal_form(meths["_is_allowed_callable"].body) != _ref(IS_ALLOWED_REF):
+    if normal_form(meths["_is_allowed_callable"].body) not in [_ref(x) for x in IS_ALLOWED_REFS]:
         raise Unsupported("_is_allowed_callable has an unrecognised shape (line %d)" % meths["_is_allowed_callable"].lineno)
     return out
 
@@ -665,11 +669,18 @@ def gen_selsem():
     def same_as_interpreted(k):
         # what the interpreted engine's Name branch resolves the root to: getattr(dynamic_fieldtype, k)
         want, got = getattr(dynamic_fieldtype, k), cs.ns[k]
+        def dotted(m):       # the dotted path so far: `_path` (`path` before d02d67c)
+            return m.__dict__.get("_path", m.__dict__.get("path"))
+
         if isinstance(want, DynamicFieldtypeModule):
-            return isinstance(got, DynamicFieldtypeModule) and got.path == want.path == k
-        return type(got) is type(want) and got == want       # `path`: the instance attribute of DynamicFieldtypeModule
+            return isinstance(got, DynamicFieldtypeModule) and dotted(got) == dotted(want) == k
+        return type(got) is type(want) and got == want       # before d02d67c `path` was the instance attribute 
 
     dyn = all(same_as_interpreted(k) for k in extra) and isinstance(cs.ns.get("net"), DynamicFieldtypeModule)
+    roots_ok = all(isinstance(getattr(dynamic_fieldtype, k), DynamicFieldtypeModule) for k in WHITELIST_TREE)
+    out += "(* getattr(dynamic_fieldtype, <root>) is a field-type module for EVERY whitelisted root (no root is shadowed by an\n"
+    out += "   attribute of DynamicFieldtypeModule itself, as `path` was) *)\n"
+    out += "Definition fieldtype_roots_resolve : bool := %s.\n" % cbool(roots_ok)
     out += "(* ... every one of them is what the interpreted engine resolves the name to (DynamicFieldtypeModule(<name>), resolved\n"
     out += "   through the whitelist; a plain module object would resolve net.ipv4 / net.tcp only once that submodule is imported) *)\n"
     out += "Definition compiled_roots_dynamic : bool := %s.\n" % cbool(dyn)
